@@ -855,3 +855,479 @@ Qed.
 Definition reachable (s : state) : Prop := exists n m d tr, run tr (init n m d) = Some s.
 Lemma inv_reachable : forall s, reachable s -> Inv s.
 Proof. intros s (n & m & d & tr & H). eapply inv_run; eauto using inv_init. Qed.
+
+(* ====================================================================================== *)
+(* Quiescent states: no label is enabled.  (The reader of every events channel is part of  *)
+(* the system: LSubRead is its label, so "terminal" includes "readers keep reading".)      *)
+Definition terminal (s : state) : Prop := forall l, step s l = None.
+
+Lemma terminal_dead : forall s, Inv s -> terminal s -> dead s = true.
+Proof.
+  intros s I T. specialize (T LConnDie). unfold step in T. rewrite (iA s I) in T. simpl in T.
+  destruct (dead s); auto; discriminate.
+Qed.
+
+Lemma terminal_proc : forall s, Inv s -> terminal s -> proc s = PDone.
+Proof.
+  intros s I T. pose proof (terminal_dead s I T) as Hd.
+  assert (Hl : lost s = true) by (unfold lost; rewrite Hd; reflexivity).
+  destruct (proc s) eqn:Ep; auto; exfalso.
+  - specialize (T LReadFail). unfold step in T. rewrite (iA s I) in T. simpl in T. rewrite Ep, Hl in T. discriminate.
+  - specialize (T LDispatch). unfold step in T. rewrite (iA s I) in T. simpl in T. rewrite Ep in T.
+    destruct (disp m (table s) s); discriminate.
+  - specialize (T LProcClose1). unfold step in T. rewrite (iA s I) in T. simpl in T. rewrite Ep in T. discriminate.
+  - specialize (T LProcClose2). unfold step in T. rewrite (iA s I) in T. simpl in T. rewrite Ep in T. discriminate.
+Qed.
+
+Lemma terminal_closers : forall s, Inv s -> terminal s -> forall o e ph, In (o, e, ph) (closers s) -> ph = 2.
+Proof.
+  intros s I T o e ph Hin. pose proof (proj1 (iE s I o e ph Hin)) as Hle2.
+  destruct (Nat.eq_dec ph 2) as [|Hne]; auto. exfalso.
+  apply In_nth_error in Hin. destruct Hin as [k Hk].
+  specialize (T (LCloserStep k)). unfold step in T. rewrite (iA s I) in T. simpl in T. rewrite Hk in T.
+  destruct ph as [|[|ph]]; try lia; try discriminate.
+  destruct (run_closer s o e) eqn:Er; try discriminate.
+  destruct o as [c|i|j]; simpl in Er; try discriminate. destruct e; try discriminate.
+  destruct (errs s c) eqn:Ee; try discriminate.
+  destruct (iF s I c Ee) as (ph & Hin & Hp). apply In_nth_error in Hin. destruct Hin as [j Hj].
+  assert (NDc : NoDup (cowners (closers s))) by (pose proof (iB s I) as B; unfold ALL in B; eapply nodup_app_l; eauto).
+  assert (j = k) by (eapply nodup_cowners_pos; eauto). subst. rewrite Hk in Hj. inversion Hj. lia.
+Qed.
+
+Lemma terminal_nopend : forall s, Inv s -> terminal s -> forall o, ~ pend s o.
+Proof.
+  intros s I T o (e & ph & Hin & Hle). rewrite (terminal_closers s I T _ _ _ Hin) in Hle. lia.
+Qed.
+
+(* every call has returned or was never started *)
+Lemma terminal_calls : forall s, Inv s -> terminal s -> forall c, cp s c = CIdle \/ exists b, cp s c = CDone b.
+Proof.
+  intros s I T c. pose proof (terminal_proc s I T) as Hp. pose proof (terminal_dead s I T) as Hd.
+  assert (Hl : lost s = true) by (unfold lost; rewrite Hd; reflexivity).
+  destruct (cp s c) eqn:Ec; eauto; exfalso.
+  - specialize (T (LCallSendFail c)). unfold step in T. rewrite (iA s I) in T. simpl in T. rewrite Ec, Hl in T. discriminate.
+  - assert (Ha : act s (OCall c)) by (simpl; rewrite Ec; exact Logic.I).
+    destruct (iK s I _ Ha) as [H|[H|H]].
+    + specialize (T (LCallSel c BReply)). unfold step in T. rewrite (iA s I) in T. simpl in T. rewrite Ec, H in T.
+      destruct (q (ch s (OCall c))); discriminate.
+    + eapply terminal_nopend; eauto.
+    + apply (iK2 s I c Ec H). exact Hp.
+  - specialize (T (LCallRemove c)). unfold step in T. rewrite (iA s I) in T. simpl in T. rewrite Ec in T. discriminate.
+  - specialize (T (LCallCancelSend c)). unfold step in T. rewrite (iA s I) in T. simpl in T. rewrite Ec in T. discriminate.
+Qed.
+
+(* ---------- what the channel operations leave alone ---------- *)
+Definition ctl_eq (s s' : state) : Prop :=
+  cp s' = cp s /\ sp s' = sp s /\ cbreg s' = cbreg s /\ proc s' = proc s /\ usr s' = usr s /\ closed s' = closed s /\
+  dead s' = dead s /\ cancelled s' = cancelled s /\ nn s' = nn s /\ mm s' = mm s /\ dd s' = dd s /\
+  table s' = table s /\ closers s' = closers s /\ delivered s' = delivered s /\ evclosed s' = evclosed s.
+
+Lemma ctl_refl : forall s, ctl_eq s s.
+Proof. intro s; unfold ctl_eq; repeat split; reflexivity. Qed.
+Lemma ctl_trans : forall a b c, ctl_eq a b -> ctl_eq b c -> ctl_eq a c.
+Proof.
+  unfold ctl_eq; intros a b c H1 H2.
+  destruct H1 as (A1 & A2 & A3 & A4 & A5 & A6 & A7 & A8 & A9 & A10 & A11 & A12 & A13 & A14 & A15).
+  destruct H2 as (B1 & B2 & B3 & B4 & B5 & B6 & B7 & B8 & B9 & B10 & B11 & B12 & B13 & B14 & B15).
+  repeat split; congruence.
+Qed.
+Lemma ctl_close_chan : forall s o, ctl_eq s (close_chan s o).
+Proof. intros s o; unfold close_chan; destruct (qclosed (ch s o)); unfold ctl_eq; simpl; repeat split; reflexivity. Qed.
+Lemma ctl_run_closer : forall s o e s1, run_closer s o e = Some s1 -> ctl_eq s s1.
+Proof.
+  intros s o e s1 H. destruct o as [c|i|j]; simpl in H.
+  - destruct e; [destruct (errs s c); try discriminate|]; inversion H; subst; unfold ctl_eq; simpl; repeat split; reflexivity.
+  - inversion H; subst; apply ctl_refl.
+  - inversion H; subst; unfold ctl_eq; simpl; repeat split; reflexivity.
+Qed.
+Lemma ctl_close_sync : forall s o, ctl_eq s (close_sync s o).
+Proof.
+  intros s o. unfold close_sync. destruct (run_closer s o false) eqn:E; [|apply ctl_refl].
+  eapply ctl_trans; [eapply ctl_run_closer; eauto|apply ctl_close_chan].
+Qed.
+Lemma ctl_enqueue : forall s o t, ctl_eq s (enqueue s o t).
+Proof.
+  intros s o t. unfold enqueue. destruct (qclosed (ch s o)); [unfold ctl_eq; simpl; repeat split; reflexivity|].
+  destruct (length (q (ch s o)) <? capacity o); [unfold ctl_eq; simpl; repeat split; reflexivity|apply ctl_refl].
+Qed.
+Lemma ctl_disp : forall m tb s, ctl_eq s (snd (disp m tb s)).
+Proof.
+  induction tb as [|x r IH]; intro s; simpl; [apply ctl_refl|].
+  destruct x as [o|].
+  - set (s1 := if matches o m then match m with MFor _ t => enqueue s o t | MNone => s end else s).
+    assert (C1 : ctl_eq s s1).
+    { unfold s1. destruct (matches o m); [|apply ctl_refl]. destruct m; [apply ctl_enqueue|apply ctl_refl]. }
+    destruct (keeps o m).
+    + specialize (IH s1). destruct (disp m r s1); simpl in *. eapply ctl_trans; eauto.
+    + specialize (IH (close_sync s1 o)). destruct (disp m r (close_sync s1 o)); simpl in *.
+      eapply ctl_trans; [exact C1|]. eapply ctl_trans; [apply ctl_close_sync|exact IH].
+  - specialize (IH s). destruct (disp m r s); simpl in *; auto.
+Qed.
+Lemma disp_owners_sub : forall m tb s x, In x (owners (fst (disp m tb s))) -> In x (owners tb).
+Proof.
+  induction tb as [|y r IH]; intros s x H; simpl in *; auto.
+  destruct y as [o|].
+  - set (s1 := if matches o m then match m with MFor _ t => enqueue s o t | MNone => s end else s) in *.
+    destruct (keeps o m).
+    + specialize (IH s1 x). destruct (disp m r s1); simpl in *. destruct H; auto.
+    + specialize (IH (close_sync s1 o) x). destruct (disp m r (close_sync s1 o)); simpl in *. auto.
+  - specialize (IH s x). destruct (disp m r s); simpl in *; auto.
+Qed.
+Lemma setnth_none_sub : forall tb k x, In x (owners (setnth k None tb)) -> In x (owners tb).
+Proof.
+  induction tb as [|y r IH]; intros k x H; destruct k; simpl in *; auto.
+  - destruct y; simpl; auto.
+  - destruct y; simpl in *; [destruct H; eauto|eauto].
+Qed.
+Lemma ctl_remove_handler : forall s k,
+  let s1 := remove_handler s k in
+  cp s1 = cp s /\ sp s1 = sp s /\ cbreg s1 = cbreg s /\ proc s1 = proc s /\ usr s1 = usr s /\ closed s1 = closed s /\
+  dead s1 = dead s /\ cancelled s1 = cancelled s /\ nn s1 = nn s /\ mm s1 = mm s /\ dd s1 = dd s /\
+  closers s1 = closers s /\ delivered s1 = delivered s /\ evclosed s1 = evclosed s /\
+  (forall x, In x (owners (table s1)) -> In x (owners (table s))).
+Proof.
+  intros s k. unfold remove_handler. destruct (nth_error (table s) k) as [[o|]|]; simpl; try (repeat split; auto; fail).
+  destruct (ctl_close_sync s o) as (A1 & A2 & A3 & A4 & A5 & A6 & A7 & A8 & A9 & A10 & A11 & A12 & A13 & A14 & A15).
+  repeat split; auto. intros x. apply setnth_none_sub.
+Qed.
+
+Ltac step_cases H :=
+  unfold step in H;
+  match type of H with (if panicked ?s then _ else _) = _ => destruct (panicked s) eqn:?Hpan; [discriminate|] end;
+  match type of H with context[match ?l with LConnDie => _ | _ => _ end] => destruct l end;
+  unfold step_call, step_sub, step_ep in H;
+  repeat match type of H with
+         | context[match ?x with _ => _ end] => destruct x eqn:?
+         | context[if ?x then _ else _] => destruct x eqn:?
+         end;
+  try discriminate; inversion H; subst; clear H.
+
+Lemma alloc_sub : forall tb o tb' k x, alloc tb o = (tb', k) -> In x (owners tb') -> x = o \/ In x (owners tb).
+Proof.
+  intros tb o tb' k x E H. destruct (alloc_owners tb o) as (l1 & l2 & E1 & E2). rewrite E in E2. simpl in E2.
+  rewrite E2 in H. apply in_mid in H. rewrite E1. exact H.
+Qed.
+
+Lemma step_mono : forall s l s', step s l = Some s' ->
+  (forall o, reg s o -> reg s' o) /\
+  (forall o, reg s o -> intab s' o -> intab s o) /\
+  (proc s' = PDone -> proc s = PDone \/ owners (table s') = []) /\
+  (lost s = true -> lost s' = true) /\
+  nn s' = nn s /\ mm s' = mm s /\ dd s' = dd s.
+Proof.
+  intros s l s' H. step_cases H; unfold intab, lost; simpl.
+  all: try match goal with Hb : _ && negb _ = true |- _ =>
+         apply andb_true_iff in Hb; destruct Hb as [? Hb]; apply negb_true_iff in Hb end.
+  all: try (destruct (ctl_remove_handler s slot) as (A1 & A2 & A3 & A4 & A5 & A6 & A7 & A8 & A9 & A10 & A11 & A12 & A13 & A14 & A15)).
+  all: try match goal with E : disp ?m ?tb ?s0 = (?t1, ?s1) |- _ =>
+         pose proof (ctl_disp m tb s0) as CD; pose proof (disp_owners_sub m tb s0) as DS; rewrite E in CD, DS; simpl in CD, DS;
+         destruct CD as (A1 & A2 & A3 & A4 & A5 & A6 & A7 & A8 & A9 & A10 & A11 & A12 & A13 & A14 & A15) end.
+  all: try match goal with E : run_closer ?s0 ?o ?e = Some ?s1 |- _ =>
+         destruct (ctl_run_closer _ _ _ _ E) as (A1 & A2 & A3 & A4 & A5 & A6 & A7 & A8 & A9 & A10 & A11 & A12 & A13 & A14 & A15) end.
+  all: try match goal with |- context[close_chan ?s0 ?o] =>
+         destruct (ctl_close_chan s0 o) as (A1 & A2 & A3 & A4 & A5 & A6 & A7 & A8 & A9 & A10 & A11 & A12 & A13 & A14 & A15) end.
+  all: rewrite ?A1, ?A2, ?A3, ?A4, ?A5, ?A6, ?A7, ?A8, ?A9, ?A10, ?A11, ?A12, ?A13, ?A14.
+  all: repeat split; auto.
+  all: try (intros ox Hox; destruct ox; simpl in *; rewrite ?A1, ?A2, ?A3; auto; updc; auto; congruence).
+  all: try (intros ox Hox Hin; apply DS; exact Hin).
+  all: try (intros; congruence).
+  all: try (intros; discriminate).
+  all: try (rewrite ?orb_true_r; auto; fail).
+  all: try (intros o Ho Hin; match goal with E : alloc _ _ = _ |- _ => destruct (alloc_sub _ _ _ _ _ E Hin) as [->|]; auto end;
+            exfalso; simpl in Ho; congruence).
+  all: try (intros; right; apply owners_map_none).
+  all: try (intros o Ho Hin; rewrite owners_map_none in Hin; destruct Hin).
+Qed.
+
+(* ---------- handlers registered before the loss ---------- *)
+Definition good (s : state) (o : owner) : Prop := intab s o -> proc s <> PDone.
+
+Lemma good_step : forall s l s' o, step s l = Some s' -> reg s o -> good s o -> good s' o /\ reg s' o.
+Proof.
+  intros s l s' o H Hr Hg. destruct (step_mono s l s' H) as (M1 & M2 & M3 & _). split; auto.
+  intros Hin Hp. destruct (M3 Hp) as [Hp'|He].
+  - apply Hg; auto.
+  - unfold intab in Hin. rewrite He in Hin. destruct Hin.
+Qed.
+Lemma good_run : forall tr s s' o, run tr s = Some s' -> reg s o -> good s o -> good s' o /\ reg s' o.
+Proof.
+  induction tr as [|l r IH]; intros s s' o H Hr Hg; simpl in H.
+  - inversion H; subst; auto.
+  - destruct (step s l) eqn:E; try discriminate. destruct (good_step _ _ _ _ E Hr Hg). eauto.
+Qed.
+Lemma good_alive : forall s o, Inv s -> lost s = false -> good s o.
+Proof.
+  intros s o I Hl _ Hp. destruct (iP s I) as [P1 _]. unfold lost in Hl. rewrite P1 in Hl by auto.
+  rewrite orb_true_r in Hl. discriminate.
+Qed.
+
+(* a handler registered before the loss is closed in every quiescent state *)
+Lemma early_handler_closed : forall s0 tr s o, Inv s0 -> lost s0 = false -> reg s0 o -> (forall c, o <> OCall c) ->
+  run tr s0 = Some s -> terminal s -> qclosed (ch s o) = true.
+Proof.
+  intros s0 tr s o I0 Hl Hr Hnc Hrun T.
+  assert (I : Inv s) by (eapply inv_run; eauto).
+  destruct (good_run _ _ _ _ Hrun Hr (good_alive _ _ I0 Hl)) as [Hg Hr'].
+  assert (Ha : act s o) by (destruct o; simpl in *; auto; exfalso; eapply Hnc; eauto).
+  destruct (iK s I o Ha) as [H|[H|H]]; auto.
+  - exfalso. eapply terminal_nopend; eauto.
+  - exfalso. apply (Hg H). apply terminal_proc; auto.
+Qed.
+
+Lemma subs_closed : forall s0 tr s i, Inv s0 -> lost s0 = false -> sp s0 i <> SNone ->
+  run tr s0 = Some s -> terminal s -> evclosed s i = true.
+Proof.
+  intros s0 tr s i I0 Hl Hr Hrun T.
+  assert (I : Inv s) by (eapply inv_run; eauto).
+  assert (Hc : qclosed (ch s (OSub i)) = true).
+  { apply (early_handler_closed s0 tr s (OSub i) I0 Hl Hr); auto. intros c; discriminate. }
+  assert (Hr' : sp s i <> SNone).
+  { destruct (good_run _ _ _ (OSub i) Hrun Hr (good_alive _ _ I0 Hl)) as [_ H]. exact H. }
+  apply (iG s I). destruct (sp s i) eqn:Es; auto; exfalso.
+  - congruence.
+  - destruct (q (ch s (OSub i))) as [|t r] eqn:Eq.
+    + specialize (T (LSubClosed i)). unfold step in T. rewrite (iA s I) in T. simpl in T. rewrite Es, Eq, Hc in T.
+      destruct (evclosed s i); discriminate.
+    + specialize (T (LSubTake i)). unfold step in T. rewrite (iA s I) in T. simpl in T. rewrite Es, Eq in T. discriminate.
+  - specialize (T (LSubRead i)). unfold step in T. rewrite (iA s I) in T. simpl in T. rewrite Es in T. discriminate.
+Qed.
+
+Lemma cb_once : forall s0 tr s j, Inv s0 -> lost s0 = false -> cbreg s0 j = true ->
+  run tr s0 = Some s -> terminal s -> cbcount s j = 1.
+Proof.
+  intros s0 tr s j I0 Hl Hr Hrun T.
+  assert (I : Inv s) by (eapply inv_run; eauto).
+  apply (proj2 (iM s I j)). left. apply (early_handler_closed s0 tr s (OCb j) I0 Hl Hr); auto. intros c; discriminate.
+Qed.
+
+Lemma cb_at_most_once : forall s j, reachable s -> cbcount s j <= 1.
+Proof. intros s j R. apply (proj1 (iM s (inv_reachable s R) j)). Qed.
+
+Lemma no_panic : forall s, reachable s -> panicked s = false.
+Proof. intros s R. apply (iA s (inv_reachable s R)). Qed.
+
+(* ---------- where replies come from ---------- *)
+Lemma q_close_chan : forall s o x, q (ch (close_chan s o) x) = q (ch s x).
+Proof.
+  intros s o x. unfold close_chan. destruct (qclosed (ch s o)); simpl; auto.
+  unfold updo. destruct (owner_eqb x o) eqn:E; auto. apply owner_eqb_eq in E; subst; reflexivity.
+Qed.
+Lemma ch_run_closer : forall s o e s1, run_closer s o e = Some s1 -> ch s1 = ch s.
+Proof.
+  intros s o e s1 H. destruct o as [c|i|j]; simpl in H.
+  - destruct e; [destruct (errs s c); try discriminate|]; inversion H; subst; reflexivity.
+  - inversion H; subst; reflexivity.
+  - inversion H; subst; reflexivity.
+Qed.
+Lemma q_close_sync : forall s o x, q (ch (close_sync s o) x) = q (ch s x).
+Proof.
+  intros s o x. unfold close_sync. destruct (run_closer s o false) eqn:E; auto.
+  rewrite q_close_chan. rewrite (ch_run_closer _ _ _ _ E). reflexivity.
+Qed.
+Lemma q_enqueue : forall s o t x t', In t' (q (ch (enqueue s o t) x)) -> In t' (q (ch s x)) \/ (x = o /\ t' = t).
+Proof.
+  intros s o t x t' H. unfold enqueue in H. destruct (qclosed (ch s o)); simpl in H; auto.
+  destruct (length (q (ch s o)) <? capacity o); simpl in H; auto.
+  unfold updo in H. destruct (owner_eqb x o) eqn:E; auto. apply owner_eqb_eq in E; subst. simpl in H.
+  apply in_app_iff in H. destruct H as [H|[H|[]]]; auto.
+Qed.
+Lemma q_disp : forall m tb s x t', In t' (q (ch (snd (disp m tb s)) x)) -> In t' (q (ch s x)) \/ m = MFor x t'.
+Proof.
+  induction tb as [|y r IH]; intros s x t' H; simpl in *; auto.
+  destruct y as [o|].
+  - set (s1 := if matches o m then match m with MFor _ t => enqueue s o t | MNone => s end else s) in *.
+    assert (H1 : In t' (q (ch s1 x)) -> In t' (q (ch s x)) \/ m = MFor x t').
+    { unfold s1. destruct (matches o m) eqn:Em; auto. destruct (matches_target _ _ Em) as [t Et]. subst m.
+      intro Hq. apply q_enqueue in Hq. destruct Hq as [|[-> ->]]; auto. }
+    destruct (keeps o m).
+    + specialize (IH s1 x t'). destruct (disp m r s1); simpl in *. destruct (IH H); auto.
+    + specialize (IH (close_sync s1 o) x t'). destruct (disp m r (close_sync s1 o)); simpl in *.
+      destruct (IH H) as [Hq|]; auto. rewrite q_close_sync in Hq. auto.
+  - specialize (IH s x t'). destruct (disp m r s); simpl in *; auto.
+Qed.
+Lemma q_remove_handler : forall s k x, q (ch (remove_handler s k) x) = q (ch s x).
+Proof.
+  intros s k x. unfold remove_handler. destruct (nth_error (table s) k) as [[o|]|]; simpl; auto. apply q_close_sync.
+Qed.
+
+Definition can_ok (s : state) (c : nat) : Prop :=
+  cp s c = CDone true \/ In TReply (q (ch s (OCall c))) \/ proc s = PHave (MFor (OCall c) TReply).
+
+Lemma mtype_eqb_eq : forall a b, mtype_eqb a b = true -> a = b.
+Proof. destruct a, b; simpl; intros; congruence. Qed.
+
+(* once the connection is lost no call can become answerable any more *)
+Lemma can_ok_back : forall s l s' c, step s l = Some s' -> lost s = true -> can_ok s' c -> can_ok s c.
+Proof.
+  intros s l s' c H Hl. unfold can_ok. step_cases H; simpl.
+  all: try match goal with E : disp ?m ?tb ?s0 = (?t1, ?s1) |- _ =>
+         pose proof (ctl_disp m tb s0) as CD; pose proof (q_disp m tb s0) as QD; rewrite E in CD, QD; simpl in CD, QD;
+         destruct CD as (A1 & A2 & A3 & A4 & A5 & A6 & A7 & A8 & A9 & A10 & A11 & A12 & A13 & A14 & A15) end.
+  all: try match goal with E : run_closer ?s0 ?o ?e = Some ?s1 |- _ =>
+         pose proof (ch_run_closer _ _ _ _ E) as CH;
+         destruct (ctl_run_closer _ _ _ _ E) as (A1 & A2 & A3 & A4 & A5 & A6 & A7 & A8 & A9 & A10 & A11 & A12 & A13 & A14 & A15) end.
+  all: try match goal with |- context[close_chan ?s0 ?o] =>
+         destruct (ctl_close_chan s0 o) as (A1 & A2 & A3 & A4 & A5 & A6 & A7 & A8 & A9 & A10 & A11 & A12 & A13 & A14 & A15) end.
+  all: try (destruct (ctl_remove_handler s slot) as (A1 & A2 & A3 & A4 & A5 & A6 & A7 & A8 & A9 & A10 & A11 & A12 & A13 & A14 & A15)).
+  all: rewrite ?q_close_chan, ?q_remove_handler, ?CH, ?A1, ?A4; try congruence.
+  all: try (intros [H|[H|H]]; [revert H; updc; intro; auto; try discriminate; try congruence| auto | auto; try discriminate; try congruence]; fail).
+  - (* BReply: the head of the reply channel decides *)
+    intros [H|[H|H]]; auto.
+    + revert H. updc; intro H; auto. inversion H as [Ht]. apply mtype_eqb_eq in Ht. subst.
+      right; left. rewrite Heql. simpl; auto.
+    + right; left. unfold updo in H. destruct (owner_eqb (OCall c) (OCall c0)) eqn:E; auto.
+      apply owner_eqb_eq in E. inversion E; subst. simpl in H. rewrite Heql. simpl; auto.
+  - (* LDispatch: only the message being dispatched can add a reply *)
+    intros [H|[H|H]]; auto; try discriminate.
+    destruct (QD _ _ H) as [Hq| ->]; auto.
+Qed.
+
+Lemma lost_run : forall tr s s', run tr s = Some s' -> lost s = true -> lost s' = true.
+Proof.
+  induction tr as [|l r IH]; intros s s' H Hl; simpl in H.
+  - inversion H; subst; auto.
+  - destruct (step s l) eqn:E; try discriminate. destruct (step_mono _ _ _ E) as (_ & _ & _ & M & _). eauto.
+Qed.
+Lemma can_ok_back_run : forall tr s s' c, run tr s = Some s' -> lost s = true -> can_ok s' c -> can_ok s c.
+Proof.
+  induction tr as [|l r IH]; intros s s' c H Hl Hc; simpl in H.
+  - inversion H; subst; auto.
+  - destruct (step s l) eqn:E; try discriminate. destruct (step_mono _ _ _ E) as (_ & _ & _ & M & _).
+    eapply can_ok_back; eauto.
+Qed.
+Lemma reg_run : forall tr s s' o, run tr s = Some s' -> reg s o -> reg s' o.
+Proof.
+  induction tr as [|l r IH]; intros s s' o H Hr; simpl in H.
+  - inversion H; subst; auto.
+  - destruct (step s l) eqn:E; try discriminate. destruct (step_mono _ _ _ E) as (M & _). eauto.
+Qed.
+
+(* Every call that is in flight when the connection is lost, and every call made later,
+   returns an error: after the loss, in every quiescent state reached by any schedule, a call
+   for which no Reply had been read from the stream has returned and its result is an error
+   (or it was never started). *)
+Lemma calls_fail : forall s tr s' c, Inv s -> lost s = true -> ~ can_ok s c ->
+  run tr s = Some s' -> terminal s' ->
+  (cp s c <> CIdle -> cp s' c = CDone false) /\ (cp s' c = CIdle \/ cp s' c = CDone false).
+Proof.
+  intros s tr s' c I Hl Hn Hrun T.
+  assert (I' : Inv s') by (eapply inv_run; eauto).
+  assert (Hb : cp s' c <> CDone true).
+  { intro Hd. apply Hn. eapply can_ok_back_run; eauto. left; auto. }
+  destruct (terminal_calls s' I' T c) as [H|[b H]].
+  - split; auto. intro Hs. exfalso. apply (reg_run tr s s' (OCall c) Hrun Hs). exact H.
+  - destruct b; [congruence|]. split; auto.
+Qed.
+
+(* ---------- a delivered reply reaches its caller (early reply included) ---------- *)
+Lemma q_enqueue_other : forall s o t x, x <> o -> q (ch (enqueue s o t) x) = q (ch s x).
+Proof.
+  intros s o t x Hne. unfold enqueue. destruct (qclosed (ch s o)); simpl; auto.
+  destruct (length (q (ch s o)) <? capacity o); simpl; auto. rewrite updo_other; auto.
+Qed.
+Lemma q_disp_notin : forall m tb s o, ~ In o (owners tb) -> q (ch (snd (disp m tb s)) o) = q (ch s o).
+Proof.
+  induction tb as [|y r IH]; intros s o Hn; simpl in *; auto.
+  destruct y as [o'|]; simpl in Hn.
+  - assert (Hne : o <> o') by (intros ->; apply Hn; auto).
+    assert (Hn' : ~ In o (owners r)) by (intro; apply Hn; auto).
+    set (s1 := if matches o' m then match m with MFor _ t => enqueue s o' t | MNone => s end else s).
+    assert (H1 : q (ch s1 o) = q (ch s o)).
+    { unfold s1. destruct (matches o' m); auto. destruct m; auto. apply q_enqueue_other; auto. }
+    destruct (keeps o' m).
+    + specialize (IH s1 o Hn'). destruct (disp m r s1); simpl in *. congruence.
+    + specialize (IH (close_sync s1 o') o Hn'). destruct (disp m r (close_sync s1 o')); simpl in *.
+      rewrite IH, q_close_sync. exact H1.
+  - specialize (IH s o Hn). destruct (disp m r s); simpl in *; auto.
+Qed.
+
+Definition holds_reply (s : state) (c : nat) : Prop :=
+  (exists r, q (ch s (OCall c)) = TReply :: r) /\ ((exists k, cp s c = CMade k) \/ cp s c = CWait) /\ cancelled s c = false.
+
+Lemma done_stable : forall s l s' c b, step s l = Some s' -> cp s c = CDone b -> cp s' c = CDone b.
+Proof.
+  intros s l s' c b H Hd. step_cases H; simpl.
+  all: try match goal with E : disp ?m ?tb ?s0 = (?t1, ?s1) |- _ =>
+         pose proof (ctl_disp m tb s0) as CD; rewrite E in CD; simpl in CD;
+         destruct CD as (A1 & _) end.
+  all: try match goal with E : run_closer ?s0 ?o ?e = Some ?s1 |- _ => destruct (ctl_run_closer _ _ _ _ E) as (A1 & _) end.
+  all: try match goal with |- context[close_chan ?s0 ?o] => destruct (ctl_close_chan s0 o) as (A1 & _) end.
+  all: try (destruct (ctl_remove_handler s slot) as (A1 & _)).
+  all: rewrite ?A1; auto; updc; auto; congruence.
+Qed.
+
+Lemma reply_kept : forall s l s' c, Inv s -> holds_reply s c -> step s l = Some s' ->
+  l <> LCallSendFail c -> l <> LCancel c -> holds_reply s' c \/ cp s' c = CDone true.
+Proof.
+  intros s l s' c I ((r & Hq) & Hpc & Hcan) H N1 N2.
+  assert (Hnin : ~ In (OCall c) (ALL s)) by (apply (iN s I); rewrite Hq; discriminate).
+  assert (Hnt : ~ In (OCall c) (owners (table s))) by (intro; apply Hnin; unfold ALL; apply in_app_iff; auto).
+  assert (Herr : errs s c = false).
+  { destruct (errs s c) eqn:E; auto. exfalso. destruct (iF s I c E) as (ph & Hin & _). apply Hnin.
+    unfold ALL. apply in_app_iff. left. apply in_cowners. eauto. }
+  unfold holds_reply. step_cases H; simpl.
+  all: try match goal with E : disp ?m ?tb ?s0 = (?t1, ?s1) |- _ =>
+         pose proof (ctl_disp m tb s0) as CD; pose proof (q_disp_notin m tb s0 (OCall c) Hnt) as QD; rewrite E in CD, QD; simpl in CD, QD;
+         destruct CD as (A1 & A2 & A3 & A4 & A5 & A6 & A7 & A8 & A9 & A10 & A11 & A12 & A13 & A14 & A15) end.
+  all: try match goal with E : run_closer ?s0 ?o ?e = Some ?s1 |- _ =>
+         pose proof (ch_run_closer _ _ _ _ E) as CH;
+         destruct (ctl_run_closer _ _ _ _ E) as (A1 & A2 & A3 & A4 & A5 & A6 & A7 & A8 & A9 & A10 & A11 & A12 & A13 & A14 & A15) end.
+  all: try match goal with |- context[close_chan ?s0 ?o] =>
+         destruct (ctl_close_chan s0 o) as (A1 & A2 & A3 & A4 & A5 & A6 & A7 & A8 & A9 & A10 & A11 & A12 & A13 & A14 & A15) end.
+  all: try (destruct (ctl_remove_handler s slot) as (A1 & A2 & A3 & A4 & A5 & A6 & A7 & A8 & A9 & A10 & A11 & A12 & A13 & A14 & A15)).
+  all: rewrite ?q_close_chan, ?q_remove_handler, ?CH, ?QD, ?A1, ?A8.
+  all: try (left; split; [eauto|split; [|auto]]; destruct Hpc as [[k0 Hk]|Hw]; updc; eauto; try congruence; fail).
+  destruct (Nat.eq_dec c0 c) as [->|Hne].
+  - right. rewrite upd_same. rewrite Hq in Heql. inversion Heql; subst. reflexivity.
+  - left. rewrite updo_other by congruence. rewrite upd_other by auto. eauto.
+Qed.
+
+Lemma reply_delivered : forall tr s s' c, Inv s -> holds_reply s c -> run tr s = Some s' ->
+  ~ In (LCallSendFail c) tr -> ~ In (LCancel c) tr -> terminal s' -> cp s' c = CDone true.
+Proof.
+  assert (G : forall tr s s' c, Inv s -> holds_reply s c \/ cp s c = CDone true -> run tr s = Some s' ->
+              ~ In (LCallSendFail c) tr -> ~ In (LCancel c) tr -> holds_reply s' c \/ cp s' c = CDone true).
+  { induction tr as [|l r IH]; intros s s' c I H Hrun N1 N2; simpl in Hrun.
+    - inversion Hrun; subst; auto.
+    - destruct (step s l) as [s1|] eqn:E; try discriminate.
+      apply (IH s1 s' c); auto.
+      + eapply inv_step; eauto.
+      + destruct H as [H|H].
+        * eapply reply_kept; eauto; intros ->; [apply N1|apply N2]; simpl; auto.
+        * right. eapply done_stable; eauto.
+      + intro; apply N1; simpl; auto.
+      + intro; apply N2; simpl; auto. }
+  intros tr s s' c I H Hrun N1 N2 T.
+  assert (I' : Inv s') by (eapply inv_run; eauto).
+  destruct (G tr s s' c I (or_introl H) Hrun N1 N2) as [(_ & Hpc & _)|Hd]; auto.
+  exfalso. destruct (terminal_calls s' I' T c) as [Hc|[b Hc]]; destruct Hpc as [[k Hk]|Hw]; congruence.
+Qed.
+
+(* the early-reply schedule: the handler is in the table before Send is attempted, so a Reply
+   read and dispatched while the call is still inside Send lands in its reply channel *)
+Lemma early_reply_lands : forall s c k, Inv s -> cp s c = CMade k -> intab s (OCall c) -> cancelled s c = false ->
+  proc s = PRead -> lost s = false ->
+  exists s1, run [LPeerMsg (MFor (OCall c) TReply); LDispatch] s = Some s1 /\ holds_reply s1 c /\ cp s1 c = CMade k.
+Proof.
+  intros s c k I Hc Hin Hcan Hp Hl.
+  assert (NDt : NoDup (owners (table s))).
+  { pose proof (iB s I) as B. unfold ALL in B. clear - B. induction (cowners (closers s)); simpl in *; auto. inversion B; auto. }
+  assert (Hop : qclosed (ch s (OCall c)) = false) by (apply (iD s I); auto).
+  assert (Hq : q (ch s (OCall c)) = []).
+  { destruct (q (ch s (OCall c))) eqn:E; auto. exfalso. apply (iN s I c); [rewrite E; discriminate|].
+    unfold ALL. apply in_app_iff; auto. }
+  assert (HM : matches (OCall c) (MFor (OCall c) TReply) = true) by (unfold matches; apply owner_eqb_refl).
+  simpl. unfold step. rewrite (iA s I). simpl. rewrite Hp, Hl. simpl.
+  set (s0 := set_proc s (PHave (MFor (OCall c) TReply))).
+  assert (E0 : disp (MFor (OCall c) TReply) (table s) s0 =
+               (clearo (OCall c) (table s), close_sync (enqueue s0 (OCall c) TReply) (OCall c))).
+  { rewrite (disp_match (OCall c) TReply (table s) s0 NDt Hin HM). unfold keeps. rewrite HM. reflexivity. }
+  rewrite E0. rewrite (iA s I). eexists. split; [reflexivity|].
+  destruct (ctl_close_sync (enqueue s0 (OCall c) TReply) (OCall c)) as (A1 & _).
+  destruct (ctl_enqueue s0 (OCall c) TReply) as (B1 & _ & _ & _ & _ & _ & _ & B8 & _).
+  unfold holds_reply; simpl. rewrite q_close_sync, A1, B1. simpl. rewrite Hc.
+  split; [|reflexivity]. split; [|split; [eauto|]].
+  - unfold enqueue. simpl. rewrite Hop, Hq. simpl. rewrite updo_same. simpl. eauto.
+  - destruct (ctl_close_sync (enqueue s0 (OCall c) TReply) (OCall c)) as (_ & _ & _ & _ & _ & _ & _ & A8 & _).
+    rewrite A8, B8. exact Hcan.
+Qed.
